@@ -84,6 +84,10 @@ func findFuncAny(c *Ctx, dir, name string) (*token.FileSet, *ast.FuncDecl, error
 func kindSkeleton(c *Ctx, it Item) (string, error) {
 	fset, fd, err := findFuncAny(c, it.Str("dir"), it.Str("func"))
 	if err != nil {
+		// "optional": true — a function that only exists on a tree with a proposed fix: absent = empty skeleton
+		if opt, _ := it["optional"].(bool); opt {
+			return fmt.Sprintf("def %s : List String := []\n", it.Str("name")), nil
+		}
 		return "", err
 	}
 	drops := it.Strs("drop")
